@@ -153,6 +153,10 @@ class TagDevice(nfc.clf.device.Device):
         rsp = None
         if cmd is not None and self.present and not self.tag.dead:
             rsp = self.tag.command(cmd, timeout)
+        if fault is not None and fault[0] == "empty":
+            # the driver hands over a frame without a single octet
+            self.xlog.append((idx, cmd, "ERR:empty", "rsp"))
+            return bytearray()
         if fault is not None:
             self.xlog.append((idx, cmd, "ERR:" + fault[0], "rsp"))
             if fault[0] == "timeout":
